@@ -135,7 +135,7 @@ theorem C17_no_leak (ao : AliasOracle) (s : St) (r : Run) (h : s.Idle) : (execRu
 /-- Storage-level sampling by a size-based calculator follows the same rule on the calculator's ratio. -/
 theorem C17_s3_same_rule (r d : Q) :
     s3ShouldSample (some r) d = keepDecision false { rate := r } d ∧ s3ShouldSample none d = true := by
-  simp [s3ShouldSample, keepDecision]
+  simp [s3ShouldSample, keepDecision, rateAlways_eq, drawKeeps_eq]
 
 /-- number of recordings handed to the cassette to be saved -/
 def saves (l : List Ev) : Nat := (l.filter (fun e => match e with | .save _ => true | _ => false)).length
@@ -204,7 +204,7 @@ example : Quiet { cls := "Op" } (.done (.out (.ret (.atom "1")))) := by
   intro s hidle hen
   obtain ⟨ha, hf, hc, hp, hpo, hi⟩ := hidle
   simp [atFinally, opened, startRec, tick, addLog, execOperationFunc, exec, inPlaybackMode, hp, write, hf]
-  cases s.clock <;> simp [write, hf]
+  cases s.clock <;> simp
 example : keepDecision false { rate := ⟨0, 1⟩ } ⟨0, 1⟩ = true ∧ keepDecision false { rate := ⟨0, 1⟩ } ⟨1, 4⟩ = false ∧
     keepDecision false { rate := ⟨1, 2⟩ } ⟨1, 2⟩ = true ∧ keepDecision false { rate := ⟨1, 2⟩ } ⟨3, 4⟩ = false ∧
     keepDecision false { rate := ⟨3, 2⟩ } ⟨3, 4⟩ = true ∧ keepDecision true { rate := ⟨0, 1⟩ } ⟨3, 4⟩ = true := by decide
